@@ -106,3 +106,11 @@ Example C19_batchnorm_hypotheses_hold_for_ordinary_values :
    tiny32 <= Rabs (w * rnd32 (rnd32 (x - m) / sq (rnd32 (v + eps)))) /\
    tiny32 <= Rabs (rnd32 (w * rnd32 (rnd32 (x - m) / sq (rnd32 (v + eps)))) + b))%R.
 Proof. exact bn_hypotheses_hold_for_ordinary_values. Qed.
+
+(* the same bound for the output side, (top - bottom) * c + bottom : the generated formula has the same shape *)
+Theorem C19_spline_height_denormalisation_float32_error : forall bottom top c : R,
+  (tiny32 <= Rabs (top - bottom))%R -> (tiny32 <= Rabs (rnd32 (top - bottom) * c))%R ->
+  (tiny32 <= Rabs (rnd32 (rnd32 (top - bottom) * c) + bottom))%R ->
+  (Rabs (rq_cumheight_affine Fops32 bottom top c - rq_cumheight_affine Rops bottom top c)
+   <= u32 * (3 + 3 * u32 + u32 * u32) * Rabs ((top - bottom) * c) + u32 * Rabs bottom)%R.
+Proof. intros bottom top c H0 H1 H2. exact (rq_denormalise_float32_error bottom top c H0 H1 H2). Qed.
